@@ -564,17 +564,68 @@ class Body:
 
     def _simp_vfield(self, t):
         _, base, variant, idx = t
+        r = t
         if variant in self._OK_VARIANTS and idx == 0:
             # Try::branch(x) -> Continue(payload of x)
             b = base
             if b[0] == 'call' and canon(b[1]).endswith('Try::branch'):
                 b = b[2][0]
-            if b[0] == 'var':
-                od = self.ok_def(b[1])
-                if od is not None:
-                    return od[1]
-            return ('ok', b)
-        return t
+            r = ('ok', b)
+        # a payload read from a multiply-defined local (match arms, the result of an inlined helper): if exactly one of its
+        # definitions builds this variant, that definition's payload is the value
+        c = self.phi_candidates(r)
+        if c is not None and len(c) == 1:
+            return c[0][1]
+        return r
+
+    def _ty_is_result(self, t):
+        return t[0] == 'var' and self.local_ty(t[1]).s.startswith("std::result::Result<")
+
+    def _is_phi(self, l):
+        return l > self.arg_count and not self.partial_defs(l) and len(self.defs(l)) >= 2
+
+    def phi_candidates(self, t, depth=0):
+        """[(pos, term)]: the values a term rooted in a multiply-defined local can take, after following the variant selections
+        written in the term (`ok(v)`, `v@Variant.i`, nested). A definition that builds another variant (or a failure through
+        from_residual) is not a candidate; any definition of unknown shape makes the answer None (unknown)."""
+        if depth > 6 or not isinstance(t, tuple) or not t:
+            return None
+        k = t[0]
+        if k == 'var':
+            if not self._is_phi(t[1]):
+                return None
+            out = []
+            for pos, d in self.var_defs(t[1]):
+                d = deep_strip(d)
+                if d[0] == 'var' and d[1] != t[1] and self._is_phi(d[1]):
+                    sub = self.phi_candidates(d, depth + 1)
+                    if sub is None:
+                        return None
+                    out.extend(sub)
+                else:
+                    out.append((pos, d))
+            return out
+        if k in ('ok', 'vfield'):
+            base = deep_strip(t[1])
+            if base[0] == 'call' and canon(base[1]).endswith('Try::branch') and len(base[2]) == 1:
+                base = deep_strip(base[2][0])
+            cs = self.phi_candidates(base, depth + 1)
+            if cs is None:
+                return None
+            want = self._OK_VARIANTS if k == 'ok' else (t[2],)
+            idx = 0 if k == 'ok' else t[3]
+            out = []
+            for pos, d in cs:
+                d = deep_strip(d)
+                if d[0] == 'agg' and d[2] is not None:
+                    if d[2] in want and idx < len(d[3]):
+                        out.append((pos, deep_strip(d[3][idx])))
+                    continue
+                if d[0] == 'call' and canon(d[1]).endswith("FromResidual::from_residual"):
+                    continue        # builds a failure: never the selected (success) variant
+                return None
+            return out
+        return None
 
     def rvalue_term(self, rv, pos, depth):
         k = rv["k"]
@@ -787,6 +838,18 @@ class Program:
     def closures_of(self, body):
         roots = [body.id] + list(body.j.get("inlined", ()))     # closures of inlined novel helpers belong to the caller now
         return [b for b in self.bodies if b.kind == "Closure" and b.root in roots and any(b.id.startswith(r + "::") for r in roots)]
+
+    _STD_VARIANTS = {"std::option::Option": ("None", "Some"), "std::result::Result": ("Ok", "Err"), "std::ops::ControlFlow": ("Continue", "Break"),
+                     "core::option::Option": ("None", "Some"), "core::result::Result": ("Ok", "Err"), "core::ops::ControlFlow": ("Continue", "Break")}
+
+    def variant_idx(self, adt, variant):
+        adt = strip_generics(str(adt))
+        vs = self._STD_VARIANTS.get(adt)
+        if vs is None and adt in self.adts:
+            vs = tuple(v["name"] for v in self.adts[adt]["variants"])
+        if vs is None or variant not in vs:
+            return None
+        return vs.index(variant)
 
     def family(self, body):
         """the body and (transitively) the closures defined in it: one source-level function"""
@@ -1052,9 +1115,9 @@ def _signed_to_unsigned(t):
     return None
 
 
-def _writes_between(self, v, use_pos, parts, edge):
+def _writes_between(self, v, use_pos, parts, edge, stop_blocks=()):
     """is any mutable part (var local / memory) possibly redefined on a path from block v to use_pos
-    that does not cross `edge` again?"""
+    that does not cross `edge` again (and does not pass through one of `stop_blocks`)?"""
     if not parts:
         return False
     ub, ui = use_pos
@@ -1069,12 +1132,12 @@ def _writes_between(self, v, use_pos, parts, edge):
         if x == ub:
             continue
         for y in self.succ(x):
-            if (x, y) == edge or y in seen:
+            if (x, y) == edge or y in seen or (y in stop_blocks and y != ub):
                 continue
             seen.add(y)
             st.append(y)
     # only blocks that can reach the use block matter
-    region = [x for x in seen if x == ub or ub in self.reachable(x, removed_edges=(edge,))]
+    region = [x for x in seen if x == ub or ub in self.reachable(x, removed_edges=(edge,), removed_nodes=tuple(s for s in stop_blocks if s != ub and s != x))]
     for x in region:
         blk = self.blocks[x]
         stmts = blk["stmts"]
@@ -1122,23 +1185,44 @@ def _facts_at(self, pos, _depth=0):
         via_branch = False
         if t[0] == 'call' and canon(t[1]).endswith('Try::branch'):
             t, via_branch = deep_strip(t[2][0]), True
-        if t[0] != 'var' or t[1] in seen:
+        if t in seen:
             continue
-        tys = self.local_ty(t[1]).s
-        okv = 0 if via_branch else (0 if tys.startswith("std::result::Result<") else 1 if tys.startswith("std::option::Option<") else None)
-        if okv is None or v != okv:
+        cs = self.phi_candidates(t)
+        if not cs:
             continue
-        od = self.ok_def(t[1])
-        if od is None:
+        sel = []
+        unknown = False
+        for dpos, d in cs:
+            d = deep_strip(d)
+            if d[0] == 'agg' and d[2] is not None:
+                vi = (0 if d[2] in Body._OK_VARIANTS else 1) if via_branch else self.prog.variant_idx(d[1], d[2])
+                if vi is None:
+                    unknown = True
+                elif vi == v:
+                    sel.append(dpos)
+            elif d[0] == 'call' and canon(d[1]).endswith("FromResidual::from_residual"):
+                if (via_branch and v == 1) or (not via_branch and v == 1 and self._ty_is_result(t)):
+                    sel.append(dpos)
+            else:
+                unknown = True
+        if unknown or len(sel) != 1:
             continue
-        seen.add(t[1])
-        dpos = od[0]
+        seen.add(t)
+        dpos = sel[0]
+        # "control came through this definition" means: as the LAST definition of the local — paths that run through another
+        # (or again through this) definition of it are not the ones the fact speaks about
+        roots = {s[1] for s in subterms(t) if isinstance(s, tuple) and s and s[0] == 'var' and self._is_phi(s[1])}
+        stops = set()
+        for l in roots:
+            for (dp, _k, _pl) in self.defs(l):
+                stops.add(dp[0])
         for r2 in _facts_at(self, dpos, _depth + 1):
             parts = set()
             for x in r2[1:]:
                 if isinstance(x, tuple):
                     parts |= _mutable_parts(x, self)
-            if _writes_between(self, dpos[0], pos, parts, None):
+            parts = {p_ for p_ in parts if not (p_[0] == 'var' and p_[1] in roots)}
+            if _writes_between(self, dpos[0], pos, parts, None, tuple(sorted(stops))):
                 continue
             if r2 not in out:
                 out.append(r2)
